@@ -124,4 +124,25 @@ class Check(Property):
                     if abs(ratio - 1) > Fraction(1, 10 ** 12):
                         v.append(f"C20 {name}: {entry} of the {label} magnitude {mag} gives {got}, the standard factor is {float(want)!r}")
                         break
+            # ... and through to_base_units of the default (mks) system, on a registry that has first been asked for the same unit
+            # under the other bundled systems: the SI base units (kilogram, not gram) with the standard factor
+            if not hasattr(self, "_hist_reg"):
+                self._hist_reg = regs.fresh("fraction")
+            uh = self._hist_reg
+            try:
+                for sysname in ("imperial", "cgs", "US"):
+                    try:
+                        uh.get_base_units(name, system=sysname)
+                    except Exception:  # noqa: BLE001
+                        pass
+                qb = uh.Quantity(Fraction(1), name).to_base_units()
+                mass_e = wdims.get("[mass]", Fraction(0))
+                if mass_e.denominator == 1 and not isinstance(qb.magnitude, float):
+                    want_b = want / Fraction(1000) ** int(mass_e)
+                    names_b = set(dict(qb._units))
+                    if "gram" in names_b or Fraction(qb.magnitude) != want_b:
+                        v.append(f"C20 {name}: 1 {name}.to_base_units() in the default system ({uh.default_system}), after base units were asked under "
+                                 f"imperial / cgs / US, is {qb.magnitude} {qb.units}; in SI base units the standard factor is {want_b}")
+            except Exception as exc:  # noqa: BLE001
+                v.append(f"C20 {name}: to_base_units after questions about other systems raised {type(exc).__name__}: {exc}")
         return v
